@@ -74,19 +74,57 @@ func (c03Enc) Unmarshal(b []byte) (request.Request, error) {
 type c03Store struct {
 	m         map[string][]byte
 	closeFail bool // the storage client reports an error when it is closed (an environment fault during shutdown)
+	// beforeWrite is called before every mutating storage call (a storage-operation boundary: the place where the process
+	// can die between two durable states)
+	beforeWrite func()
+	ioPoint     bool // every mutating storage call is a scheduling point
+	log         func(string)
+}
+
+func (s *c03Store) note(f string, a ...any) {
+	if s.log != nil {
+		s.log(fmt.Sprintf(f, a...))
+	}
+}
+
+func (s *c03Store) boundary() {
+	if s.ioPoint {
+		vs.Point() // a storage round trip takes time: other threads run meanwhile
+	}
+	if s.beforeWrite != nil {
+		s.beforeWrite()
+	}
 }
 
 func (s *c03Store) Get(_ context.Context, k string) ([]byte, error) { return s.m[k], nil }
-func (s *c03Store) Set(_ context.Context, k string, v []byte) error { s.m[k] = v; return nil }
-func (s *c03Store) Delete(_ context.Context, k string) error        { delete(s.m, k); return nil }
+func (s *c03Store) Set(_ context.Context, k string, v []byte) error {
+	s.boundary()
+	s.note("set %s=%x", k, v)
+	s.m[k] = v
+	return nil
+}
+func (s *c03Store) Delete(_ context.Context, k string) error {
+	s.boundary()
+	s.note("del %s", k)
+	delete(s.m, k)
+	return nil
+}
 func (s *c03Store) Batch(_ context.Context, ops ...*storage.Operation) error {
+	for _, op := range ops {
+		if op.Type != storage.Get {
+			s.boundary()
+			break
+		}
+	}
 	for _, op := range ops {
 		switch op.Type {
 		case storage.Get:
 			op.Value = s.m[op.Key]
 		case storage.Set:
+			s.note("batch-set %s=%x", op.Key, op.Value)
 			s.m[op.Key] = op.Value
 		case storage.Delete:
+			s.note("batch-del %s", op.Key)
 			delete(s.m, op.Key)
 		}
 	}
@@ -140,6 +178,14 @@ type c03Cfg struct {
 	IdleMs int `json:"idle_before_shutdown_ms,omitempty"`
 	// NoQueue: the sending queue is disabled - Send runs the whole chain (retries included) in the caller's goroutine
 	NoQueue bool `json:"queue_disabled,omitempty"`
+	// Crash (C01's chain unit): the process dies at one storage-operation boundary of the execution - every boundary in
+	// turn (a free environment choice), in every schedule: the storage contents of that instant are set aside, and a next
+	// incarnation started on them must hand over every request whose Send had returned and whose export had not finished
+	Crash bool `json:"crash_at_a_storage_boundary,omitempty"` // (every boundary of every execution is judged)
+	// Hold: the backend keeps every export call until the harness releases it. Item 1 is released as soon as it is being
+	// exported; the producers after the first one start only then; everything else is released once nothing can run any
+	// more. A completion (of item 1) thereby overlaps offers and dequeues of later items, which then stay in flight.
+	Hold bool `json:"backend_holds_until_released,omitempty"`
 }
 
 type c03Obs struct {
@@ -159,6 +205,11 @@ type c03Obs struct {
 	storedAtRet    map[int]bool
 	recovered      map[int]bool // persistent: items handed to the export function by the NEXT incarnation on the same storage
 	epilogue       bool
+	crashAt        int          // the storage-operation boundary at which the process died (0 = none)
+	crashOwed      map[int]bool // accepted (Send returned) and not finished at that instant
+	crashRecovered map[int]bool // handed over by an incarnation started on the storage contents of that instant
+	crashDesc      string       // the storage contents of that instant and the calls so far (diagnosis)
+	opLog          []string
 	shutdownErr    string
 	finished       bool
 }
@@ -167,6 +218,7 @@ func c03Body(cf *c03Cfg, o *c03Obs) func() {
 	return func() {
 		*o = c03Obs{attempts: map[int]int{}, failed: map[int]bool{}, transient: map[int]int{}, finalOK: map[int]bool{}, acceptedBefore: map[int]bool{}, acceptedAll: map[int]bool{}}
 		inFlight := 0
+		holding, released := map[int]bool{}, map[int]bool{}
 		enteredBefore := map[int]bool{} // ids whose Send was entered before shutdown was requested
 		first := map[int]time.Time{}
 		backend := func(bctx context.Context, r request.Request) error {
@@ -208,6 +260,13 @@ func c03Body(cf *c03Cfg, o *c03Obs) func() {
 				c = vs.Choose(answers)
 			}
 			vs.Point() // the call takes a while: others may run
+			if cf.Hold {
+				holding[ids[0]] = true
+				vs.Block(func() bool { return released[ids[0]] || vs.Killed() })
+				if vs.Killed() {
+					return nil
+				}
+			}
 			switch c {
 			case 3:
 				vs.Sleep(3 * time.Second)
@@ -255,6 +314,45 @@ func c03Body(cf *c03Cfg, o *c03Obs) func() {
 		}
 		qc := queuebatch.Config{Enabled: !cf.NoQueue, NumConsumers: cf.Consumers, QueueSize: 100, Sizer: request.SizerTypeItems, WaitForResult: cf.WFR}
 		store := &c03Store{m: map[string][]byte{}, closeFail: cf.CloseFails}
+		// death at a storage-operation boundary: the storage contents of EVERY boundary of the execution are set aside
+		// together with what was owed at that instant (accepted - its Send had returned - and not finished); in the epilogue
+		// an incarnation is started on each distinct image (the outcome is a function of the image alone, so it is
+		// computed once per distinct image of the whole run and remembered)
+		type crashPoint struct {
+			n     int
+			key   string
+			image map[string][]byte
+			owed  map[int]bool
+		}
+		var crashPoints []crashPoint
+		if cf.Crash {
+			n := 0
+			store.ioPoint = true
+			store.beforeWrite = func() {
+				n++
+				var ks []string
+				for k, v := range store.m {
+					ks = append(ks, fmt.Sprintf("%s=%x", k, v))
+				}
+				sort.Strings(ks)
+				cp := crashPoint{n: n, key: strings.Join(ks, " "), owed: map[int]bool{}}
+				for id := range o.acceptedAll {
+					if !o.finalOK[id] {
+						cp.owed[id] = true
+					}
+				}
+				if len(cp.owed) == 0 {
+					return
+				}
+				if _, known := c03CrashCache[cp.key]; !known {
+					cp.image = map[string][]byte{}
+					for k, v := range store.m {
+						cp.image[k] = append([]byte(nil), v...)
+					}
+				}
+				crashPoints = append(crashPoints, cp)
+			}
+		}
 		stID := component.MustNewID("st")
 		if cf.Persistent {
 			qc.Sizer = request.SizerTypeRequests
@@ -299,8 +397,12 @@ func c03Body(cf *c03Cfg, o *c03Obs) func() {
 				reqs = append(reqs, ids)
 			}
 			wg.Add(1)
+			late := cf.Hold && pi > 0
 			vs.GoNamed(fmt.Sprintf("producer%d", pi+1), func() {
 				defer wg.Done()
+				if late {
+					vs.Block(func() bool { return released[1] })
+				}
 				for _, ids := range reqs {
 					for _, id := range ids {
 						enteredBefore[id] = o.shutdownReq == 0
@@ -318,6 +420,17 @@ func c03Body(cf *c03Cfg, o *c03Obs) func() {
 					} else {
 						o.sendErrs++
 					}
+				}
+			})
+		}
+		if cf.Hold {
+			vs.GoNamed("releaser", func() {
+				vs.Block(func() bool { return holding[1] })
+				released[1] = true
+				wg.Wait()
+				vs.AwaitQuiescence(nil)
+				for id := 2; id < next; id++ {
+					released[id] = true
 				}
 			})
 		}
@@ -340,7 +453,7 @@ func c03Body(cf *c03Cfg, o *c03Obs) func() {
 				o.inFlightAtRet = 0 // an export in flight belongs to a caller that is still inside its own Send
 			}
 			for _, n := range vs.LiveThreads() {
-				if !strings.HasPrefix(n, "producer") && n != "main" && n != "shutdown" {
+				if !strings.HasPrefix(n, "producer") && n != "main" && n != "shutdown" && n != "releaser" {
 					o.liveAtRet = append(o.liveAtRet, n)
 				}
 			}
@@ -376,6 +489,7 @@ func c03Body(cf *c03Cfg, o *c03Obs) func() {
 			// epilogue, not explored (default schedule): "still durably stored for the next start" means the next incarnation
 			// gets it - a payload that is still in the storage but that recovery no longer reaches is lost
 			vs.Freeze()
+			store.beforeWrite, store.ioPoint = nil, false // the point of death lies in the incarnation under test, not in the epilogue's
 			o.epilogue = true
 			o.recovered = map[int]bool{}
 			backend2 := func(_ context.Context, r request.Request) error {
@@ -398,10 +512,50 @@ func c03Body(cf *c03Cfg, o *c03Obs) func() {
 			vs.Sleep(3 * time.Second)
 			_ = be2.Shutdown(context.Background())
 		}
+		if len(crashPoints) > 0 {
+			vs.Freeze()
+			for _, cp := range crashPoints {
+				rec, known := c03CrashCache[cp.key]
+				if !known {
+					rec = map[int]bool{}
+					backend3 := func(_ context.Context, r request.Request) error {
+						if vs.Killed() {
+							return nil
+						}
+						for _, id := range r.(*c03Req).ids {
+							rec[id] = true
+						}
+						return nil
+					}
+					be3, err := NewBaseExporter(exportertest.NewNopSettings(component.MustNewType("x")), pipeline.SignalLogs, backend3, opts...)
+					if err != nil {
+						panic(err)
+					}
+					host3 := c03Host{ext: map[component.ID]component.Component{stID: &c03Ext{cl: &c03Store{m: cp.image}}}}
+					if err := be3.Start(context.Background(), host3); err != nil {
+						panic(err)
+					}
+					vs.Sleep(3 * time.Second)
+					_ = be3.Shutdown(context.Background())
+					if vs.Killed() {
+						return
+					}
+					c03CrashCache[cp.key] = rec
+				}
+				for id := range cp.owed {
+					if !rec[id] && o.crashAt == 0 {
+						o.crashAt, o.crashOwed, o.crashRecovered, o.crashDesc = cp.n, cp.owed, rec, cp.key
+					}
+				}
+			}
+		}
 		finished = true
 		o.finished = true
 	}
 }
+
+// c03CrashCache: storage image (canonical rendering) -> the items an incarnation started on it hands to the export function
+var c03CrashCache = map[string]map[int]bool{}
 
 func c03Check(cf *c03Cfg, o *c03Obs) (string, string) {
 	fam := "mem"
@@ -422,6 +576,13 @@ func c03Check(cf *c03Cfg, o *c03Obs) (string, string) {
 	}
 	if len(o.liveAtRet) > 0 {
 		return "goroutine-left:" + fam, fmt.Sprintf("helper goroutines still alive when Shutdown returned: %v; %s", o.liveAtRet, desc())
+	}
+	if o.crashAt > 0 {
+		for _, id := range keys(o.crashOwed) {
+			if !o.crashRecovered[id] {
+				return "lost:persistent:crash", fmt.Sprintf("the process died at storage-operation boundary %d; request item %d had been accepted (its Send had returned) and its export had not finished, but an incarnation started on the storage contents of that instant never handed it to the export function (owed: %v, recovered: %v); %s", o.crashAt, id, keys(o.crashOwed), keys(o.crashRecovered), desc())
+			}
+		}
 	}
 	for _, id := range keys(o.acceptedBefore) {
 		if cf.Persistent {
@@ -502,6 +663,12 @@ func c03Configs(quick bool) []*c03Cfg {
 		if c.NoQueue {
 			c.Name += ",queue-disabled"
 		}
+		if c.Crash {
+			c.Name += ",crash-at-a-storage-boundary"
+		}
+		if c.Hold {
+			c.Name += ",backend-holds"
+		}
 		if c.FreeBackend {
 			c.Name += fmt.Sprintf(",free-backend,batch=%d..%d", c.BatchMin, c.BatchMax)
 		}
@@ -535,6 +702,12 @@ func c03Configs(quick bool) []*c03Cfg {
 	// shutdown; every backend answer pattern is enumerated
 	add(c03Cfg{Persistent: true, Batch: true, Retry: true, Consumers: 1, Producers: [][]int{{3}}, Concurrent: false, FreeBackend: true, BatchMin: 2, BatchMax: 2})
 	add(c03Cfg{Batch: true, Retry: true, Consumers: 1, Producers: [][]int{{3}}, Concurrent: false, FreeBackend: true, BatchMin: 2, BatchMax: 2})
+	// C01 (chain unit): death at every storage-operation boundary while several consumers and producers are at work
+	add(c03Cfg{Persistent: true, Retry: true, Consumers: 2, Producers: [][]int{{1}, {1}}, Concurrent: false, Crash: true})
+	add(c03Cfg{Persistent: true, Retry: false, Consumers: 2, Producers: [][]int{{1, 1}}, Concurrent: false, Crash: true})
+	add(c03Cfg{Persistent: true, Retry: true, Consumers: 1, Producers: [][]int{{1}, {1}}, Concurrent: true, Crash: true})
+	// a completion overlapping the offers and dequeues of later requests, which then stay in flight while the process dies
+	add(c03Cfg{Persistent: true, Retry: false, Consumers: 2, Producers: [][]int{{1}, {1, 1}}, Concurrent: false, Crash: true, Hold: true})
 	// no sending queue: a caller that is in a retry back-off when Shutdown is requested - no export may begin afterwards
 	add(c03Cfg{NoQueue: true, Retry: true, Consumers: 1, Producers: [][]int{{1}}, Concurrent: true})
 	add(c03Cfg{NoQueue: true, Retry: true, Consumers: 1, Producers: [][]int{{1}, {1}}, Concurrent: true, FreeBackend: true})
@@ -590,6 +763,9 @@ func TestVerif(t *testing.T) {
 		if prop == "C01" && (!cf.Persistent || cf.CloseFails) {
 			continue
 		}
+		if cf.Crash && prop != "C01" {
+			continue // death at a storage boundary is C01's clause
+		}
 		if only := os.Getenv("VERIF_C03_ONLY"); only != "" && !strings.Contains(cf.Name, only) { // debugging aid
 			continue
 		}
@@ -600,10 +776,17 @@ func TestVerif(t *testing.T) {
 		cf := cf
 		var o c03Obs
 		body := c03Body(cf, &o)
+		// (with Crash the epilogue's length depends on which storage images were seen before: its steps are not compared)
+		steps := func(s *vs.Sched) int {
+			if cf.Crash {
+				return 0
+			}
+			return s.Steps
+		}
 		s1 := vs.Run(nil, body)
-		k1 := fmt.Sprint(s1.Choices(), s1.Steps, o.attempts)
+		k1 := fmt.Sprint(s1.Choices(), steps(s1), o.attempts)
 		s2 := vs.Run(nil, body)
-		if k1 != fmt.Sprint(s2.Choices(), s2.Steps, o.attempts) {
+		if k1 != fmt.Sprint(s2.Choices(), steps(s2), o.attempts) {
 			ctx.Infra("determinism self-test failed for %s", cf.Name)
 			continue
 		}
